@@ -177,6 +177,38 @@ fn set_mss_same() {
         && c.w_max_last.to_bits() == old.w_max_last.to_bits() && c.mss == old.mss && c.rwnd.to_bits() == old.rwnd.to_bits());
 }
 
+//@ harness id=cubic.k.set_mss_direction kind=complete props=C15,C05 tier=quick timeout=900 text="set_mss(m), m != mss: the window in segments moves in the right direction and is not clamped or reset: a smaller MSS never yields fewer segments, a larger MSS never more (cwnd in [2, 2^20], any peer window)"
+#[kani::proof]
+fn set_mss_direction() {
+    let mut c = any_cubic(false);
+    kani::assume(c.cwnd >= 2. && c.cwnd <= 1048576.);
+    let old = c;
+    let m: usize = kani::any();
+    kani::assume(m >= 1 && m <= 65535 && m != old.mss);
+    c.set_mss(m);
+    if m < old.mss { assert!(c.cwnd >= old.cwnd); } else { assert!(c.cwnd <= old.cwnd); }
+}
+
+//@ harness id=cubic.k.enter_recovery_factor kind=complete props=C15 tier=thorough timeout=2400 text="on_enter_recovery: the window becomes exactly 0.7 of the PREVIOUS window (cwnd' == cwnd * 0.7, bit for bit) and ssthresh' == max(cwnd', 2), whatever w_max / w_max_last (fast convergence) are"
+#[kani::proof]
+#[kani::stub(calc_k, stub_calc_k)]
+fn enter_recovery_factor() {
+    let mut c = any_cubic(false);
+    let old = c;
+    c.on_enter_recovery(old.last_congestion_event);
+    assert!(c.cwnd.to_bits() == (old.cwnd * 0.7).to_bits());
+    assert!(c.ssthresh.to_bits() == c.cwnd.max(2.).to_bits());
+}
+
+//@ harness id=cubic.k.rto_factor.attempt kind=attempt props=C15 tier=thorough timeout=1200 text="on_retransmission_timeout: ssthresh' == max(cwnd * 0.7, 2) bit for bit"
+#[kani::proof]
+fn rto_factor() {
+    let mut c = any_cubic(false);
+    let old = c;
+    c.on_retransmission_timeout(old.last_congestion_event);
+    assert!(c.ssthresh.to_bits() == (old.cwnd * 0.7).max(2.).to_bits());
+}
+
 //@ harness id=cubic.k.ssthresh_factor.attempt kind=attempt props=C15 tier=thorough timeout=900 text="after a timeout or entry into recovery ssthresh' == max(0.7 * cwnd, 2) exactly (equality of two floating-point products: at CBMC's limit)"
 #[kani::proof]
 #[kani::stub(calc_k, stub_calc_k)]
